@@ -36,6 +36,8 @@ func init() {
 	}
 	wrap("C01", []gozxing.BarcodeFormat{gozxing.BarcodeFormat_QR_CODE})
 	wrap("C02", []gozxing.BarcodeFormat{gozxing.BarcodeFormat_DATA_MATRIX})
+	wrap("C13", []gozxing.BarcodeFormat{gozxing.BarcodeFormat_QR_CODE, gozxing.BarcodeFormat_DATA_MATRIX})
+	wrap("C15", []gozxing.BarcodeFormat{gozxing.BarcodeFormat_QR_CODE})
 	wrap("C03", []gozxing.BarcodeFormat{
 		gozxing.BarcodeFormat_CODE_39, gozxing.BarcodeFormat_CODE_93, gozxing.BarcodeFormat_CODE_128, gozxing.BarcodeFormat_ITF,
 		gozxing.BarcodeFormat_CODABAR, gozxing.BarcodeFormat_EAN_13, gozxing.BarcodeFormat_EAN_8, gozxing.BarcodeFormat_UPC_A, gozxing.BarcodeFormat_UPC_E})
@@ -228,6 +230,87 @@ func reuseGenJob(r *Rng, f gozxing.BarcodeFormat) reuseJob {
 	return j
 }
 
+// reuseDerive: a request that differs from an earlier one of the sequence in ONE respect — same contents with other
+// encode hints (a symbol memo keyed on the contents must not answer), or the same hints with other contents of the same
+// length.  Run right after its parent (third pass of reuseSuite), this is the history a coarsely keyed cache needs.
+func reuseDerive(r *Rng, p reuseJob) reuseJob {
+	j := p
+	if r.Chance(0.25) { // same hints, other contents of the same length
+		q := reuseGenJob(r, p.f)
+		if len(q.content) >= len(p.content) && len(p.content) > 0 && p.f != gozxing.BarcodeFormat_EAN_13 && p.f != gozxing.BarcodeFormat_EAN_8 &&
+			p.f != gozxing.BarcodeFormat_UPC_A && p.f != gozxing.BarcodeFormat_UPC_E && p.f != gozxing.BarcodeFormat_CODABAR && p.f != gozxing.BarcodeFormat_ITF {
+			rs, ps := []rune(q.content), []rune(p.content)
+			if len(rs) >= len(ps) {
+				j.content = string(rs[:len(ps)])
+			}
+		} else if p.f != gozxing.BarcodeFormat_QR_CODE && p.f != gozxing.BarcodeFormat_DATA_MATRIX {
+			j.content = q.content
+		}
+		return j
+	}
+	type hv struct {
+		k gozxing.EncodeHintType
+		v interface{}
+		s string
+	}
+	var pool []hv
+	switch p.f {
+	case gozxing.BarcodeFormat_QR_CODE:
+		for _, cs := range []string{"UTF-8", "ISO-8859-1", "Shift_JIS", "windows-1252", "UTF-16BE", "US-ASCII", "ISO-8859-5"} {
+			pool = append(pool, hv{gozxing.EncodeHintType_CHARACTER_SET, cs, "CHARACTER_SET=" + cs})
+		}
+		for _, v := range []int{1, 2, 5, 10, 27, 40} {
+			pool = append(pool, hv{gozxing.EncodeHintType_QR_VERSION, v, fmt.Sprint("QR_VERSION=", v)})
+		}
+		for _, m := range []int{0, 3, 7} {
+			pool = append(pool, hv{gozxing.EncodeHintType_QR_MASK_PATTERN, m, fmt.Sprint("QR_MASK_PATTERN=", m)})
+		}
+		for _, lv := range []string{"L", "M", "Q", "H"} {
+			pool = append(pool, hv{gozxing.EncodeHintType_ERROR_CORRECTION, lv, "ERROR_CORRECTION=" + lv})
+		}
+		pool = append(pool, hv{gozxing.EncodeHintType_GS1_FORMAT, true, "GS1_FORMAT=true"}, hv{gozxing.EncodeHintType_MARGIN, 6, "MARGIN=6"})
+	case gozxing.BarcodeFormat_DATA_MATRIX:
+		pool = append(pool, hv{gozxing.EncodeHintType_DATA_MATRIX_SHAPE, reuseShape(1), "SHAPE=FORCE_SQUARE"},
+			hv{gozxing.EncodeHintType_DATA_MATRIX_SHAPE, reuseShape(2), "SHAPE=FORCE_RECTANGLE"})
+		for _, d := range [][2]int{{10, 10}, {16, 16}, {24, 24}, {12, 36}, {52, 52}} {
+			dim, _ := gozxing.NewDimension(d[0], d[1])
+			pool = append(pool, hv{gozxing.EncodeHintType_MIN_SIZE, dim, fmt.Sprintf("MIN_SIZE=%dx%d", d[0], d[1])},
+				hv{gozxing.EncodeHintType_MAX_SIZE, dim, fmt.Sprintf("MAX_SIZE=%dx%d", d[0], d[1])})
+		}
+	case gozxing.BarcodeFormat_CODE_128:
+		for _, cs := range []string{"A", "B", "C"} {
+			pool = append(pool, hv{gozxing.EncodeHintType_FORCE_CODE_SET, cs, "FORCE_CODE_SET=" + cs})
+		}
+		pool = append(pool, hv{gozxing.EncodeHintType_MARGIN, 20, "MARGIN=20"})
+	default:
+		pool = append(pool, hv{gozxing.EncodeHintType_MARGIN, 14, "MARGIN=14"}, hv{gozxing.EncodeHintType_MARGIN, 30, "MARGIN=30"})
+	}
+	j.eh = map[gozxing.EncodeHintType]interface{}{}
+	j.ehs = ""
+	if p.f == gozxing.BarcodeFormat_UPC_E {
+		j.eh[gozxing.EncodeHintType_MARGIN] = 14
+		j.ehs = "MARGIN=14"
+	}
+	if r.Chance(0.2) { // no hints at all (free choice after a forced one)
+		if j.ehs == "" {
+			j.eh, j.ehs = nil, "-"
+		}
+		return j
+	}
+	for k := r.Range(1, 2); k > 0; k-- {
+		h := pool[r.Intn(len(pool))]
+		if _, dup := j.eh[h.k]; dup {
+			continue
+		}
+		j.eh[h.k] = h.v
+		if j.ehs != "" {
+			j.ehs += ","
+		}
+		j.ehs += h.s
+	}
+	return j
+}
+
 func reuseShape(k int) interface{} { return dmenc.SymbolShapeHint(k) } // 1 = FORCE_SQUARE, 2 = FORCE_RECTANGLE
 
 func reuseRender(m *gozxing.BitMatrix, scale, pad int, flip bool) *image.Gray {
@@ -364,8 +447,15 @@ func reuseSuite(c *Ctx, prop string, fs []gozxing.BarcodeFormat) {
 		// jobs and their fresh-instance results
 		jobs := make([]reuseJob, perSeq)
 		fresh := make([]string, perSeq)
+		family := make([]int, perSeq)
 		for i := range jobs {
-			jobs[i] = reuseGenJob(rr, fs[rr.Intn(len(fs))])
+			if i > 0 && rr.Chance(0.45) {
+				p := rr.Intn(i)
+				jobs[i], family[i] = reuseDerive(rr, jobs[p]), family[p]
+				c.Note("reuse:job-derived-from-earlier-job")
+			} else {
+				jobs[i], family[i] = reuseGenJob(rr, fs[rr.Intn(len(fs))]), i
+			}
 			fresh[i] = newReuseInst().run(jobs[i])
 			switch {
 			case strings.Contains(fresh[i], "-ERR"):
@@ -377,7 +467,7 @@ func reuseSuite(c *Ctx, prop string, fs []gozxing.BarcodeFormat) {
 		// one long-lived set of instances runs the sequence twice in different orders
 		inst := newReuseInst()
 		var hist []int
-		for pass := 0; pass < 2; pass++ {
+		for pass := 0; pass < 3; pass++ {
 			order := make([]int, perSeq)
 			for i := range order {
 				order[i] = i
@@ -385,6 +475,9 @@ func reuseSuite(c *Ctx, prop string, fs []gozxing.BarcodeFormat) {
 			for i := len(order) - 1; i > 0; i-- {
 				k := rr.Intn(i + 1)
 				order[i], order[k] = order[k], order[i]
+			}
+			if pass == 2 { // third pass: every request right next to the requests it was derived from / that derive from it
+				sort.SliceStable(order, func(a, b int) bool { return family[order[a]] < family[order[b]] })
 			}
 			for _, idx := range order {
 				hist = append(hist, idx)
@@ -406,7 +499,7 @@ func reuseSuite(c *Ctx, prop string, fs []gozxing.BarcodeFormat) {
 				}
 			}
 		}
-		c.Oracle("reuse", true, "", fmt.Sprintf("sequence %d of %d jobs x 2 passes", si, perSeq), "")
-		c.NoteN("reuse:calls-on-long-lived-instances", 2*perSeq)
+		c.Oracle("reuse", true, "", fmt.Sprintf("sequence %d of %d jobs x 3 passes", si, perSeq), "")
+		c.NoteN("reuse:calls-on-long-lived-instances", 3*perSeq)
 	})
 }
